@@ -17,7 +17,14 @@
 EXTENDS Common, Json
 
 CONSTANTS MaxSeg, MaxDepth, SegIdx,
-          XmlModes       \* subset of BOOLEAN: which parser modes are generated
+          XmlModes,      \* subset of BOOLEAN: which parser modes are generated
+          \* generated segment families (all empty: only the fixed segments below are used)
+          GenNames,      \* tag names for generated tags: ordinary, void (br, img) and special (script, style) ones
+          GenAttrIdx,    \* which attribute parts (GenAttrs) they carry
+          GenEnds,       \* how they end: ">", "/>", " />"
+          GenBodyIdx,    \* bodies (GenBodies) of generated script / style elements
+          GenOpaqueIdx,  \* comment / CDATA / processing instruction (GenOpaques) ...
+          GenOBodyIdx    \* ... with these bodies (GenOBodies)
 
 NONE == "<none>"
 A(n, noff, v, voff) == [n |-> n, noff |-> noff, v |-> v, voff |-> voff]
@@ -52,6 +59,24 @@ Segs == <<
   [Seg("special", "style", "<style>a</</style>", <<>>) EXCEPT !.body = 7],             \* ... in "</"
   Seg("open", "p", "<p k=l\n m=n\n>", <<A("k", 3, "l", 5), A("m", 8, "n", 10)>>),      \* a tag written over several lines, unquoted values end the lines
   Seg("open", "a", "<a x=y\r\nz>", <<A("x", 3, "y", 5), A("z", 8, NONE, 0)>>) >>
+
+(* generated families: "<" name attribute-part end, script / style with a body and their closing tag, opaque sections *)
+GenAttrs == << [txt |-> "", attrs |-> <<>>],
+               [txt |-> " c=\"d>e\"", attrs |-> <<A("c", 1, "\"d>e\"", 3)>>],
+               [txt |-> " k=l m", attrs |-> <<A("k", 1, "l", 3), A("m", 5, NONE, 0)>>],
+               [txt |-> " x=\"it's\" y", attrs |-> <<A("x", 1, "\"it's\"", 3), A("y", 10, NONE, 0)>>],      \* the other kind of quote inside a value
+               [txt |-> "\tw v='\"'", attrs |-> <<A("w", 1, NONE, 0), A("v", 3, "'\"'", 5)>>],              \* a tab before a boolean attribute
+               [txt |-> " t={a>b}", attrs |-> <<A("t", 1, "{a>b}", 3)>>],
+               [txt |-> "\n  r=s\n", attrs |-> <<A("r", 3, "s", 5)>>] >>
+GenBodies == <<"", "a<b", "x</", "i<", "</p>", "<!--", "if(a<b)\"</x>\"">>
+GenOpaques == << <<"<!--", "-->">>, <<"<![CDATA[", "]]>">>, <<"<?", "?>">> >>
+GenOBodies == <<" <a> ", "", "-", "]", "a[0]]", " x --", "?", ">", "<b>">>
+SpecialNames == {"script", "style"}
+VoidNames == {"img", "meta", "link", "br", "base", "hr", "area", "wbr", "col", "embed", "input", "param", "source", "track"}
+ShiftAttrs(attrs, by) == [k \in 1..Len(attrs) |-> [attrs[k] EXCEPT !.noff = @ + by, !.voff = IF attrs[k].v = NONE THEN 0 ELSE @ + by]]
+MkTag(n, ai, e, kind) == Seg(kind, n, "<" \o n \o GenAttrs[ai].txt \o e, ShiftAttrs(GenAttrs[ai].attrs, 1 + Len(n)))
+MkSpecial(n, ai, bi) == LET o == MkTag(n, ai, ">", "special") IN [o EXCEPT !.txt = @ \o GenBodies[bi] \o "</" \o n \o ">", !.body = Len(o.txt)]
+MkOpaque(oi, bi) == Seg("opaque", "", GenOpaques[oi][1] \o GenOBodies[bi] \o GenOpaques[oi][2], <<>>)
 
 VARIABLES doc, xml, elems, evs, open, nseg
 vars == <<doc, xml, elems, evs, open, nseg>>
@@ -97,7 +122,13 @@ Next == \/ CloseSeg
                 [] sg.kind = "void" -> IF xml THEN OpenSeg(sg) ELSE LeafSeg(sg, 1)     \* in XML mode a void name is an ordinary element
                 [] sg.kind = "special" -> SpecialSeg(sg)
                 [] OTHER -> PlainSeg(sg)
-Spec == Init /\ [][Next]_vars
+GenNext == \/ \E n \in GenNames, ai \in GenAttrIdx, e \in GenEnds :
+                IF e # ">" THEN LeafSeg(MkTag(n, ai, e, "self"), 3)
+                ELSE IF n \in SpecialNames THEN \E bi \in GenBodyIdx : SpecialSeg(MkSpecial(n, ai, bi))
+                ELSE IF n \in VoidNames /\ ~xml THEN LeafSeg(MkTag(n, ai, e, "void"), 1)
+                ELSE OpenSeg(MkTag(n, ai, e, "open"))
+           \/ \E oi \in GenOpaqueIdx, bi \in GenOBodyIdx : PlainSeg(MkOpaque(oi, bi))
+Spec == Init /\ [][Next \/ GenNext]_vars
 Complete == open = <<>> /\ nseg > 0
 
 (* --------------------------------------------------------------- contract *)
@@ -118,7 +149,6 @@ CInward(pos) == LET S == {i \in 1..Len(elems) : Contains(i, pos)} IN
 
 (* ---------------------------------------------------------------- machine *)
 (* events as the matcher sees them: an Open event of a void name is a self-close in HTML mode *)
-VoidNames == {"img", "meta", "link", "br", "base", "hr", "area", "wbr", "col", "embed", "input", "param", "source", "track"}
 Ty(ev) == IF ev.ty = 1 /\ ~xml /\ ev.n \in VoidNames THEN 3 ELSE ev.ty
 ElemAt(a) == CHOOSE i \in 1..Len(elems) : elems[i].os = a          \* element whose open tag starts at a
 RECURSIVE MMatch(_, _, _)
